@@ -53,6 +53,22 @@ Theorem C16_still_shape : forall fx bs r, parse_ex fx bs = Ok (r, KStill) ->
 Proof. exact still_shape. Qed.
 Print Assumptions C16_still_shape.
 
+(** LoopCount of a still, exactly: container.Parser (hence GetFeatures) reports 1
+    on the VP8X layout and 0 on the simple layouts; there is no ANIM chunk in a
+    still.  mux.Demuxer reports 0 for every still (C16_views_agree_still).  The
+    field is documented as meaningful only when HasAnimation is set. *)
+From Webp Require Riff.FeaturesLimits.
+Theorem C16_still_loop_count : forall fx bs r, parse_ex fx bs = Ok (r, KStill) ->
+  fLoopCount (pFeat r) = (if fFormat (pFeat r) =? FormatVP8X then 1 else 0).
+Proof. exact FeaturesLimits.still_loop_count. Qed.
+Print Assumptions C16_still_loop_count.
+
+Theorem C16_get_features_still_loop : forall fx bs r g,
+  parse_ex fx bs = Ok (r, KStill) -> get_features fx bs = Ok g ->
+  gLoop g = (if gFormat g =? 3 then 1 else 0) /\ gHasAnim g = false.
+Proof. exact FeaturesLimits.get_features_still_loop. Qed.
+Print Assumptions C16_get_features_still_loop.
+
 (** Alpha flag, files written by this package's RIFF writer: whenever the Decode
     glue attaches a separately decoded alpha plane to the picture (the only way a
     lossy picture gets a non-opaque pixel), GetFeatures reports HasAlpha. *)
@@ -166,6 +182,49 @@ Theorem C16_big_canvas_both_reject :
     parse fx bs = Err EInvalidImage /\ DemuxModel.parse true bs = Err DemuxModel.E_vp8x.
 Proof. exact big_canvas_both_reject. Qed.
 Print Assumptions C16_big_canvas_both_reject.
+
+(** The shared limits as explicit both-reject statements, on the chunk shapes the
+    grammar prescribes (anim_file = RIFF header, VP8X, [ICCP], ANIM, the ANMF frames,
+    [EXIF], [XMP]; the shape C16_views_agree_anim reduces every well-formed animated
+    file to).  More than MaxFrames frames: container.Parser refuses the 10001st ANMF
+    chunk before parsing it, mux.Demuxer after parsing it. *)
+From Webp Require Riff.ParserLimits.
+Theorem C16_too_many_frames_both_reject :
+  forall fx flags cw ch icc b0 b1 b2 b3 b4 b5 fs exif xmp,
+    0 <= flags < 64 -> Z.land flags 4294967233 = 0 -> Z.testbit flags 1 = true ->
+    Z.testbit flags 5 = is_some icc -> 1 <= cw <= 16777216 -> 1 <= ch <= 16777216 ->
+    cw * ch < MaxImageArea -> Forall (af_ok cw ch) fs ->
+    (forall x, icc = Some x -> len x <= 104857600) ->
+    4 + len (anim_body flags cw ch icc b0 b1 b2 b3 b4 b5 fs exif xmp) <= 4294967286 ->
+    MaxFrames < len fs ->
+    parse fx (anim_file flags cw ch icc b0 b1 b2 b3 b4 b5 fs exif xmp) = Err EInvalidChunk /\
+    DemuxModel.parse true (anim_file flags cw ch icc b0 b1 b2 b3 b4 b5 fs exif xmp) = Err DemuxModel.E_toomany.
+Proof. exact ParserLimits.too_many_frames_shape. Qed.
+Print Assumptions C16_too_many_frames_both_reject.
+
+(** The same from the grammar: every RiffGrammar.wf animated file (within the size and
+    canvas caps) with more than MaxFrames ANMF chunks is rejected by both parsers. *)
+Theorem C16_too_many_frames_wf_both_reject : forall fx bs,
+  RiffGrammar.wf bs = true -> g_is_anim bs = true -> len bs <= MaxMetadataSize ->
+  g_canvas_area bs < MaxImageArea -> MaxFrames < anmf_count bs ->
+  parse fx bs = Err EInvalidChunk /\ DemuxModel.parse true bs = Err DemuxModel.E_toomany.
+Proof. exact ParserLimits.too_many_frames_both_reject. Qed.
+Print Assumptions C16_too_many_frames_wf_both_reject.
+
+(** An ICCP chunk above MaxMetadataSize (100 MB) directly after VP8X (where the
+    grammar puts it), whatever follows: both parsers reject the file.  (EXIF / XMP
+    above the cap are NOT a shared limit for stills: they follow the image chunk,
+    where container.Parser has already returned; see the notes of this property.) *)
+Theorem C16_big_iccp_both_reject :
+  forall fx flags cw ch ic rest,
+    0 <= flags < 64 -> Z.land flags 4294967233 = 0 -> Z.testbit flags 5 = true ->
+    1 <= cw <= 16777216 -> 1 <= ch <= 16777216 -> cw * ch < MaxImageArea ->
+    MaxMetadataSize < len ic ->
+    4 + len (ParserLimits.big_body flags cw ch ic rest) <= 4294967286 ->
+    parse fx (ParserLimits.big_file flags cw ch ic rest) = Err EInvalidChunk /\
+    DemuxModel.parse true (ParserLimits.big_file flags cw ch ic rest) = Err DemuxModel.E_meta.
+Proof. exact ParserLimits.big_iccp_both_reject. Qed.
+Print Assumptions C16_big_iccp_both_reject.
 
 (** Both layouts in one statement. *)
 Theorem C16_views_agree_two_parsers : forall fx bs,
